@@ -131,6 +131,7 @@ type simRegistry struct {
 	served    map[string][]byte // "ns/repo:tag" -> manifest bytes last delivered intact to a client
 	tampered  map[string]bool   // names for which a garbled manifest body was delivered at least once
 	frozenFn  func() bool
+	foldCase  bool // repository names and tags are case-insensitive
 
 	// push side
 	uploads   map[string]*simUpload
@@ -141,9 +142,10 @@ type simRegistry struct {
 }
 
 type simUpload struct {
-	id   string
-	repo string
-	data map[int64][]byte // offset -> chunk
+	id     string
+	repo   string
+	data   map[int64][]byte // offset -> chunk
+	reject bool             // the registry rejects every commit of this upload session
 }
 
 func newSimRegistry(now func() time.Duration) *simRegistry {
@@ -274,6 +276,12 @@ func (r *simRegistry) registry(req *http.Request, body []byte) (*http.Response, 
 	repo := p[0] + "/" + p[1]
 	kind := p[2]
 	rest := strings.Join(p[3:], "/")
+	if r.foldCase {
+		repo = strings.ToLower(repo)
+		if kind == "manifests" {
+			rest = strings.ToLower(rest)
+		}
+	}
 	switch {
 	case kind == "manifests" && req.Method == http.MethodGet:
 		name := repo + ":" + rest
@@ -296,6 +304,9 @@ func (r *simRegistry) registry(req *http.Request, body []byte) (*http.Response, 
 		return simResp(req, 200, http.Header{"Content-Type": {"application/vnd.docker.distribution.manifest.v2+json"}, "Content-Length": {strconv.Itoa(len(m))}}, b, int64(len(m))), nil
 	case kind == "manifests" && req.Method == http.MethodPut:
 		name := repo + ":" + rest
+		if r.plan.pick("net_manifest_put_rejected") != "" {
+			return simText(req, 500, `{"errors":[{"code":"INTERNAL","message":"injected"}]}`), nil
+		}
 		if r.onPutMan != nil {
 			r.onPutMan(name, body)
 		}
@@ -548,20 +559,38 @@ func (r *simRegistry) upload(req *http.Request, repo, rest string, body []byte) 
 			a, _, _ := strings.Cut(cr, "-")
 			lo, _ = strconv.ParseInt(strings.TrimPrefix(a, "bytes "), 10, 64)
 		}
+		next := fmt.Sprintf("https://%s/v2/%s/blobs/uploads/%s?part=%d", simRegHost, u.repo, u.id, len(u.data)+1)
+		switch r.plan.pick("net_upload_part_rejected", "net_upload_location_lost") {
+		case "net_upload_part_rejected":
+			return simText(req, 500, `{"errors":[{"code":"INTERNAL","message":"injected"}]}`), nil
+		case "net_upload_location_lost":
+			// the part is stored but the response does not say where the next one goes
+			u.data[lo] = body
+			return simResp(req, 202, nil, nil, 0), nil
+		}
 		if req.Header.Get("X-Redirect-Uploads") == "1" && verifsim.Draw("upload-redirect", 2) == 0 {
-			// direct upload to the CDN
+			// direct upload: the part goes to the CDN, the next PATCH to the registry
+			verifsim.Probe("upload_redirected")
 			loc := fmt.Sprintf("https://%s/upload/%s?off=%d", simCDNHost, u.id, lo)
-			return simResp(req, 307, http.Header{"Location": {loc}}, nil, 0), nil
+			return simResp(req, 307, http.Header{"Location": {loc}, "Docker-Upload-Location": {next}}, nil, 0), nil
 		}
 		u.data[lo] = body
-		loc := fmt.Sprintf("https://%s/v2/%s/blobs/uploads/%s", simRegHost, u.repo, u.id)
-		return simResp(req, 202, http.Header{"Location": {loc}, "Docker-Upload-Location": {loc}}, nil, 0), nil
+		return simResp(req, 202, http.Header{"Location": {next}, "Docker-Upload-Location": {next}}, nil, 0), nil
 	case http.MethodPut:
 		u := r.uploads[id]
 		if u == nil {
 			return simText(req, 404, "unknown upload"), nil
 		}
 		d := req.URL.Query().Get("digest")
+		if u.reject {
+			verifsim.Probe("commit_rejected_persistently")
+			return simText(req, 400, `{"errors":[{"code":"DIGEST_INVALID","message":"injected, persistent"}]}`), nil
+		}
+		if r.plan.pick("net_upload_commit_rejected") != "" {
+			// a registry that does not accept the assembled blob keeps saying so
+			u.reject = verifsim.Draw("commit-reject-sticky", 2) == 0
+			return simText(req, []int{500, 400}[verifsim.Draw("commit-reject", 2)], `{"errors":[{"code":"BLOB_UPLOAD_INVALID","message":"injected"}]}`), nil
+		}
 		var offs []int64
 		for o := range u.data {
 			offs = append(offs, o)
@@ -592,6 +621,12 @@ func (r *simRegistry) cdnPut(req *http.Request, body []byte) (*http.Response, er
 		return simText(req, 404, "unknown upload"), nil
 	}
 	off, _ := strconv.ParseInt(req.URL.Query().Get("off"), 10, 64)
+	switch r.plan.pick(fConnError, f5xx) {
+	case fConnError:
+		return nil, errors.New("sim: write tcp cdn.sim:443: broken pipe")
+	case f5xx:
+		return simText(req, 503, "injected"), nil
+	}
 	u.data[off] = body
 	return simResp(req, 201, http.Header{"Etag": {fmt.Sprintf("etag-%d", off)}}, nil, 0), nil
 }
